@@ -29,7 +29,19 @@ def to_trace(behs, lines):
         r["nometa"] = sum(1 for c in calls if "mw_nometa" in c)
         if x.get("op") == "record":
             spanrec[x["s"]] = x["fields"][0]["val"]["v"]
-        r["writes"] = [dict(fc.project_write(c["raw"], b["format"], b["opts"], x, spanrec), sink=c["w"]) for c in calls if "w" in c]
+        wcalls = [c for c in calls if "w" in c]
+        if b["writer"].get("short", {}).get("id"):
+            # a short-writing sink receives one record in several write calls (write_all): chunks of one (sink, thread) are joined
+            # until a newline ends the record; what is left over at the end is an incomplete record
+            merged, acc = [], {}
+            for c in wcalls:
+                key = (c["w"], c.get("th"))
+                acc[key] = acc.get(key, "") + c["raw"]
+                if acc[key].endswith("\n"):
+                    merged.append({"w": c["w"], "raw": acc.pop(key)})
+            merged += [{"w": k[0], "raw": v} for k, v in acc.items() if v]
+            wcalls = merged
+        r["writes"] = [dict(fc.project_write(c["raw"], b["format"], b["opts"], x, spanrec), sink=c["w"]) for c in wcalls]
         if x["op"] == "burst":
             n = x["n"]
             r["expect"] = [n * 10000 + j * 100 + i + 1 + 1000 for j in range(x["threads"]) for i in range(x["per"])]
